@@ -21,6 +21,7 @@ struct Elem {
     struct cstl_dlist_node node;
     uint32_t guard_hi;
     int key_copy;
+    size_t slot;            // index in Inst::all (O(1) removal)
 };
 const uint32_t GUARD_LO = 0xA5C3F00Du, GUARD_HI = 0x5A3C0FF1u;
 
@@ -40,7 +41,9 @@ const uint8_t PROFILES[][NOPS] = {
     /* no clear     */ {4, 4, 1, 1, 4, 1, 2, 2, 2, 2, 2, 2, 1, 0, 1},
     /* C15 fill     */ {4, 4, 1, 1, 4, 1, 1, 1, 1, 1, 1, 0, 1, 2, 0},
     /* short lists  */ {3, 3, 2, 2, 1, 2, 6, 1, 4, 4, 1, 1, 1, 0, 0},
+    /* scale        */ {0, 200, 3, 3, 0, 0, 0, 0, 0, 0, 0, 0, 0, 0, 0},
 };
+const int PROFILE_SCALE = 7;
 const int NPROFILES = sizeof PROFILES / sizeof PROFILES[0];
 const int KEYS[] = {1, 2, 3, 5, 8};
 const int MAXLIVE[] = {1000000, 2, 3, 4, 5, 6, 8, 12};
@@ -92,13 +95,14 @@ struct Inst {
         e->key_copy = ~key;
         e->node.n = (struct cstl_dlist_node *)0x5a5a5a5a5a5a5a5aull;
         e->node.p = (struct cstl_dlist_node *)0x5a5a5a5a5a5a5a5aull;
+        e->slot = all.size();
         all.push_back(e);
         return e;
     }
     void kill(Elem *e)
     {
-        auto it = std::find(all.begin(), all.end(), e);
-        if (it != all.end()) { *it = all.back(); all.pop_back(); }
+        size_t i = e->slot;
+        if (i < all.size() && all[i] == e) { all[i] = all.back(); all[i]->slot = i; all.pop_back(); }
         memset(e, 0xDD, sizeof *e);
         free(e);
     }
@@ -162,7 +166,8 @@ int erase_cb(void *obj, void *priv)
 // clear callback: counts per address (in the harness, never inside the element, so
 // a second hand-over of a freed element is a clause and not a harness fault),
 // then takes ownership: poison 0xDD + free
-struct ClearCtx { Inst *in; std::vector<Elem *> *expect; std::vector<char> *done; size_t calls; bool twice, foreign; };
+struct ClearCtx { Inst *in; std::vector<Elem *> *expect; std::vector<char> *done; size_t calls; bool twice, foreign;
+                  std::unordered_map<Elem *, size_t> *index; };
 ClearCtx *g_clear_ctx;
 void clear_cb(void *obj, void *priv)
 {
@@ -172,7 +177,8 @@ void clear_cb(void *obj, void *priv)
     c->calls++;
     Elem *e = (Elem *)obj;
     size_t idx = c->expect->size();
-    for (size_t i = 0; i < c->expect->size(); i++) if ((*c->expect)[i] == e) { idx = i; break; }
+    auto it = c->index->find(e);
+    if (it != c->index->end()) idx = it->second;
     if (idx == c->expect->size()) { c->foreign = true; return; }   // not an element of this list: do not touch
     if ((*c->done)[idx]) { c->twice = true; return; }              // already handed over (and freed)
     (*c->done)[idx] = 1;
@@ -183,8 +189,10 @@ void clear_cb(void *obj, void *priv)
 // observations made by an op; compared between the cleared list and a fresh twin
 typedef std::vector<long> Obs;
 
+bool g_sparse_skip;     // scale runs: the O(n) audit runs only every 2048th op (and in the epilogue)
 void audit(Inst &in, int li, Obs *obs, const char *pfx)
 {
+    if (g_sparse_skip && !obs) return;
     struct cstl_dlist *l = &in.dl[li];
     std::vector<Elem *> &m = in.model[li];
     size_t sz;
@@ -511,7 +519,9 @@ void apply(Inst &in, CaseCtx &cx, int op, uint8_t a, uint8_t b, int K, size_t ma
     case CLEAR: {
         std::vector<Elem *> expect = m;
         std::vector<char> done(expect.size(), 0);
-        ClearCtx cc{&in, &expect, &done, 0, false, false};
+        std::unordered_map<Elem *, size_t> index;
+        for (size_t i = 0; i < expect.size(); i++) index.emplace(expect[i], i);
+        ClearCtx cc{&in, &expect, &done, 0, false, false, &index};
         g_clear_ctx = &cc;
         size_t n = m.size();
         m.clear();
@@ -566,8 +576,11 @@ void vf_run(const uint8_t *data, size_t len)
     TRACE("header lists=%d keys=%d maxlive=%zu profile=%d audit_all=%d", nl, K, maxlive, prof, (int)audit_all);
     size_t nops = 0;
     bool state_marked = false;
+    const bool scale = cur.remaining() / 3 > 5000;
+    g_sparse_skip = false;
     while (cur.remaining() >= 3) {
         uint8_t o = cur.u8(), a = cur.u8(), b = cur.u8();
+        g_sparse_skip = scale && ((nops + 1) % 2048) != 0;
         if (o == 0xFE) {                // MARK: state snapshot for G1 before the trailer
             if (g_want_state) { g_state = peek_state(A); state_marked = true; }
             continue;
@@ -608,6 +621,14 @@ void vf_run(const uint8_t *data, size_t len)
             TRACE("twin B created (fresh list, other lists rebuilt)");
         }
     }
+    g_sparse_skip = false;
+    if (scale && !twin) {
+        // epilogue of a scale run: the O(n) operations on a list of ~10^5 elements, each followed by the two-way audit
+        for (int op2 : {(int)REVERSE, (int)PUSH_B, (int)SORT, (int)POP_B, (int)PUSH_F, (int)FIND})
+            apply(A, cx, op2, 0, 3, K, maxlive, true, nullptr);
+        if (nl > 1) { apply(A, cx, CONCAT, 0, 0, K, maxlive, true, nullptr); apply(A, cx, SWAP, 0, 0, K, maxlive, true, nullptr); apply(A, cx, REVERSE, 1, 0, K, maxlive, true, nullptr); }
+        CNT("class.scale_run");
+    }
     // final audit of every list
     g_cur_op = "final audit";
     for (int i = 0; i < nl; i++) audit(A, i, nullptr, "C12");
@@ -635,6 +656,7 @@ void vf_gen(Rng &r, std::vector<uint8_t> &out)
     else out.push_back(r.byte());                // profile
     out.push_back(r.chance(1, 4) ? 1 : 0);       // flags: audit every list after every op
     size_t n = r.chance(2, 3) ? 1 + r.below(12) : 1 + r.below(200);
+    if (!c15 && r.chance(1, 30000)) { n = 70000 + r.below(70000); out[2] = 0; out[3] = PROFILE_SCALE; out[4] = 0; }   // scale run
     for (size_t i = 0; i < n; i++) { out.push_back(r.byte() % 251); out.push_back(r.byte()); out.push_back(r.byte()); }
 }
 
